@@ -29,6 +29,8 @@ def make_case(seed, i, tier):
     rng = random.Random(seed)
     prof = {"delete_old": rng.random() < 0.75, "steps_choices": [16, 24, 40, 60, 90],
             "n_intf_choices": [2, 3, 3, 4, 5], "maxlength": rng.choice([20, 40, 200])}
+    if rng.random() < 0.1:
+        prof.update(engine="turtlemd", steps_choices=[12, 20], maxlength=2000)    # energies, xyz files
     scn = SC.gen_scenario(rng, prof)
     scn["plan"] = C.gen_plan(rng, scn, rng.choice(["single", "single", "clean_chain", "crash_chain"]))
     return {"seed": seed, "scn": scn, "props": [PROP]}
